@@ -76,7 +76,8 @@ def monitorsWant (c : Spec.Ctx) (obsDelta : Int) (j : Journal) (fatalHere : Bool
   (if Spec.C07.orderHolds c j then [] else ["C07|order"]) ++
   (if Spec.C07.reuseHolds c j then [] else ["C07|reuse"]) ++
   (if Spec.C07.amountHolds c want j then [] else ["C07|amount", "C05|compose"]) ++
-  (if fatalHere then [] else (Spec.C06.bad c j ++ Spec.C06.badStarve c obsDelta j).map (fun t => "C06|" ++ t))
+  (if fatalHere then [] else (Spec.C06.bad c j ++ Spec.C06.badStarve c obsDelta j ++ Spec.C06.badMaxAge c obsDelta j).map (fun t => "C06|" ++ t)) ++
+  (if fatalHere then [] else (Spec.C05.badScaleUp c obsDelta).map (fun t => "C05|" ++ t))
 
 def monitors (c : Spec.Ctx) (j : Journal) (fatalHere : Bool) : List String :=
   ((Spec.C19.scanBad c j fatalHere).map (fun t => "C19|" ++ t)) ++
